@@ -360,7 +360,8 @@ pub fn run_case(out: &mut Out, prop: &str, case: &PairCase) -> Option<CaseResult
                 }
                 if prev.res[0] > 0 && prev.res[1] > 0 { res.had_remainder = true; }
                 if let POp::UpdateConfig { new_fees: Some(f), .. } = op { fees = *f; }
-                if !matches!(op, POp::Provide { receiver: None, .. }) { if !matches!(op, POp::Withdraw { .. }) { last_provide = None; } }
+                // "immediate": the withdrawal is the very next successful operation after the deposit
+                if !matches!(op, POp::Provide { receiver: None, .. }) { last_provide = None; }
             }
             Outcome::Err(c) => {
                 obs.push("1".into()); obs.push(c.to_string());
